@@ -286,8 +286,13 @@ def run_check(engine_name, tier, verif_seed, workers=None, evidence=True, quiet=
     reported = []
     known_hits = []
     harness_problem = None
-    for (cls, key), v in list(groups.items())[:12]:
+    per_class = collections.Counter()
+    for (cls, key), v in list(groups.items()):
         k = _is_known(known, prop, v)
+        if k is None:
+            per_class[cls] += 1
+            if per_class[cls] > 2 or len(reported) >= 6:
+                continue
         if k is not None:
             known_hits.append(k)
             print(f"KNOWN-FINDING: property={prop} {cls} {key}: {k.get('what', '')}")
